@@ -55,7 +55,7 @@ def _site(rng, adversarial=False):
         out.append(rng.choice([b"t:80|", b"t:8080|", b"t:443|"]))
     r = rng.random()
     if r < 0.08:
-        out.append(b"h:localhost|")
+        out.append(b"h:localhost|" if not (adversarial and rng.random() < 0.5) else rng.choice([b"h:LocalHost|", b"h:LOCALHOST|", b"h:[2001:DB8::1]|", b"h:[2001:db8::1]|"]))
     elif r < 0.16:
         out.append(rng.choice([b"h:127.0.0.1|", b"h:10.0.0.12|"]))
     elif r < 0.22:
@@ -93,7 +93,17 @@ def long_stem(rng, kind=b"p:"):
     return kind + body + b"|"
 
 
-def gen_pool(rng, profile, n, huge=False):
+def very_deep(rng, site):
+    """LRUs hundreds to a thousand stems deep below `site` (a chain of short path stems), with
+    pages at several depths of the same chain."""
+    depth = rng.choice([260, 300, 1001, 1100])
+    stems_ = [b"p:%d|" % rng.randrange(3) for _ in range(depth)]
+    full = site + b"".join(stems_)
+    cuts = sorted(set([depth, depth - 1, rng.randrange(2, depth), 256, 257, 258]) & set(range(1, depth + 1)))
+    return [site + b"".join(stems_[:c]) for c in cuts] + [full]
+
+
+def gen_pool(rng, profile, n, huge=False, deep_chain=False):
     HUGE[0] = bool(huge)
     pool = []
     seen = set()
@@ -145,6 +155,9 @@ def gen_pool(rng, profile, n, huge=False):
                 # the very first stem is long (the root node of the trie is read by address)
                 st = [long_stem(rng, b"s:")] + st[1 : rng.randint(1, len(st))]
             push(b"".join(st))
+        if deep_chain:
+            for x in very_deep(rng, b"".join(rng.choice(sites))):
+                push(x)
     elif profile == "any-byte":
         alpha = [0x00, 0xFF, 0x7B, 0x7D, 0x7E, 0x63, 0x61, 0x62, 0x7F, 0x0A, 0x20]
         rng.shuffle(alpha)
